@@ -552,7 +552,7 @@ func progScenario(kind string, decos []string, method string) func() {
 
 func main() {
 	r := ev.Start("C15")
-	r.Rule("vsched: every schedule (within the stated deviation bound) of every scenario; a scenario = consumer programs x source chunking x error position x base kind (clone*), consumption method x task outcome x follow-up (task*), buffer kind x decorator composition x method (prog*); non-trivial = executions in which at least one thread had to wait for another")
+	r.Rule("vsched: every schedule (within the stated deviation bound) of every scenario; a scenario = consumer programs x source chunking x error position x base kind (clone*), consumption method x task outcome x follow-up (task*), buffer kind x decorator composition x method (prog*), the local replicator's ReplicateSingle x consumption method x source error x context state (user*); non-trivial = executions in which at least one thread had to wait for another")
 	r.Assume("sequentially consistent interleavings at synchronisation operations; data races are looked for separately")
 	thorough := r.Thorough()
 	var scs []mc.Scenario
@@ -601,6 +601,15 @@ func main() {
 					for _, again := range []string{"", "size", "clone-size", "task-again"} {
 						add("task", fmt.Sprintf("%s-e%d-%s-fail%v-%s", kind, errPos, programs[pi].name, tf, again), bt, taskScenario(kind, 1, errPos, pi, tf, again))
 					}
+				}
+			}
+		}
+	}
+	for _, kind := range []string{"chunk", "reader"} {
+		for _, errPos := range []int{-1, 1} {
+			for pi := range programs {
+				for cm := range cancelModes {
+					add("user", fmt.Sprintf("local-replicator-%s-e%d-%s-%s", kind, errPos, programs[pi].name, cancelModes[cm]), bt, replicatorScenario(kind, errPos, pi, cm))
 				}
 			}
 		}
